@@ -3,8 +3,8 @@
 spec: Records (typed-record state machine: registry name -> versions -> field -> type; instances
       [type, version, fields]; Outcomes(state, op) = the results and next states the property allows)
 TLC:  all histories up to a bound of declare / redeclare / construct / decode / write (direct,
-      non-symbol key, through a struct field, through a pointer field) / whole-instance assignment
-      keep WellTyped, RejectedUnchanged, KeepsDefinition; with the named deviations switched on the
+      non-symbol key, through a struct field, through a pointer field) / element assignment /
+      whole-instance assignment keep WellTyped, RejectedUnchanged, KeepsDefinition; with the named deviations switched on the
       same machine must violate WellTyped (self-test)
 bind: the harness replays exhaustive matrices (route x field type x value kind x declared/undeclared
       field), construction/decoding matrices, redeclaration histories, all short histories over an
@@ -52,11 +52,13 @@ def run():
     out = flow.Outcome(PROP)
     zv = vlib.build_zv()
     thorough = vlib.tier() == "thorough"
-    flow.mc_runs(out, [
-        dict(module="MCRecords.tla", cfg="MCRecords.cfg" if thorough else "MCRecordsQuick.cfg", timeout=2400),
-        # self-test: with the code's known deviations enabled the machine must break WellTyped
-        dict(module="MCRecords.tla", cfg="MCRecordsDevs.cfg", expect="violation"),
-    ])
+    runs = [dict(module="MCRecords.tla", cfg="MCRecordsQuick.cfg")]          # reduced palette, histories <= 4 steps
+    if thorough:
+        runs = [dict(module="MCRecords.tla", cfg="MCRecords.cfg", timeout=2400),   # full palette, <= 4 steps
+                dict(module="MCRecords.tla", cfg="MCRecords5.cfg", timeout=2400)]  # reduced palette, <= 5 steps
+    # self-test: with the code's known deviations enabled the machine must break WellTyped
+    runs.append(dict(module="MCRecords.tla", cfg="MCRecordsDevs.cfg", expect="violation"))
+    flow.mc_runs(out, runs)
     trace = os.path.join(vlib.scratch(), "records.ndjson")
     vlib.run_zv(zv, "records", [], trace)
     env = {"VERIF_DEVS": _devs()}
@@ -83,6 +85,9 @@ def run():
                     situations.add((r, _val(a[1][:1] + [x for x in a[1][1:] if isinstance(x, str)]), a[0], e["res"]))
             elif e["op"] == "derefset":
                 routes.add("derefset-" + e["route"])
+            elif e["op"] == "elem":
+                routes.add(e["route"])
+                situations.add((e["route"], _val(e["v"]), e["field"] + "[%d]" % e["idx"], e["res"]))
     texted = [c for c in cases.values() if c["evs"] and "text" in c["evs"][0]]
     samples = [[e["text"].strip() + " => " + e["res"] + " " + json.dumps(e["obs"]) for e in c["evs"][:14]] for c in texted[:2]]
     cov = {
@@ -98,18 +103,21 @@ def run():
                 "declared/undeclared field, forwards and backwards; k: 8 construction/decoding routes x 8 field types x 6 "
                 "argument shapes x value kinds; r: 9x9 pairs of definitions of one struct x routes (instances of both "
                 "versions written, constructed, assigned as a whole); v: the struct named by a field type redeclared; "
-                "h: every history of length <= L over a 37-operation alphabet after a 4-step prelude (longer ones sampled); "
+                "e: 4 element-assignment routes x 3 slice types x element kinds x index on filled/unset/empty/non-slice fields; "
+                "h: every history of length <= L over a 39-operation alphabet after a 4-step prelude (longer ones sampled); "
                 "z: seeded random histories of 40 steps",
     }
     return flow.finish(out, "model_checking", cov, [
         "value kinds, field types and routes as listed in harness/cmd/zv/fam_records.go; a value's type is read off the Go value "
-        "(slice type = type of the first element, as the language does)",
+        "(a slice's element type off all its elements; [nil ...] is a slice the language cannot type)",
         "struct or pointer values whose struct was redeclared between the declaration of the field, the creation of the value "
         "and the write: both acceptance and rejection are allowed (the statement does not say whether versions are one type)",
         "whole-instance assignment (derefSet) between instances of different versions of one struct: both outcomes allowed",
         "one interpreter per harness process (a second interpreter in the same process cannot declare structs at all); "
         "cases are separated by unique struct and variable names",
-        "records containing themselves by value are not generated (the library's printer does not terminate on them)",
+        "records containing themselves by value cannot arise from the generated inputs, whatever the library accepts "
+        "(the library's printer does not terminate on them and would kill the harness process)",
+        "slices written by the harness have two elements of one base type; element assignment is tried with base-typed values only",
         "TLC 1.8.0; verdicts come only from recorded executions of the real code",
     ])
 
